@@ -39,6 +39,17 @@ def check(ctx):
     if tx is None or rx is None:
         return
     ms = ModSets(P)
+    check_progress(ctx, P, tx, ms)
+    check_rest(ctx, P, tx, rx, ms)
+
+
+def check_progress(ctx, P, tx=None, ms=None):
+    """clause a.progress (also used by C05's R-LOOP)"""
+    if tx is None:
+        tx = ctx.need_fn(CR, TX)
+        if tx is None:
+            return
+    ms = ms or ModSets(P)
     # ---------------- a: loop progress ----------------------------------------------------------
     tb = TermBuilder(tx, P)
     progress = set()
@@ -73,6 +84,9 @@ def check(ctx):
                "the slot loop of DpMaster::transmit_telegram has a path around the loop that does not advance the cycle state "
                "(poll() can hang, e.g. when no peripheral exists at the index)", tx.loc(head))
     ctx.assume("PeripheralSet::get_next_index returns a strictly later slot or None (iterator adaptor semantics)")
+
+
+def check_rest(ctx, P, tx, rx, ms):
     # ---------------- b: no panic sites in the transmit path ------------------------------------
     n = 0
     for b, c in call_sites(tx):
